@@ -37,7 +37,8 @@ where
         Some(field::Value::Array(field::value::Array::String(values))) => {
             write_string_array_value(writer, values)
         }
-        _ => todo!("unhandled INFO field value: {:?}", value),
+        // A missing value (`KEY=.`) is written as the typed MISSING value (type 0).
+        None => value::write_value(writer, None),
     }
 }
 
